@@ -481,7 +481,13 @@ func (o *Options) buildFor(w *world, inPlace bool) (*grpcgcp.GCPMultiEndpointOpt
 	}
 	for k, v := range fresh.MultiEndpoints {
 		if old, ok := co.MultiEndpoints[k]; ok && old != nil {
-			old.Endpoints = v.Endpoints // the MultiEndpointOptions object is reused as well
+			// the MultiEndpointOptions object is reused as well, and where it fits even the endpoint slice's backing array
+			if len(v.Endpoints) <= cap(old.Endpoints) {
+				old.Endpoints = old.Endpoints[:len(v.Endpoints)]
+				copy(old.Endpoints, v.Endpoints)
+			} else {
+				old.Endpoints = v.Endpoints
+			}
 		} else {
 			co.MultiEndpoints[k] = v
 		}
